@@ -2,6 +2,7 @@ package executor
 
 import (
 	"context"
+	"errors"
 	"fmt"
 	"io"
 	"os"
@@ -16,7 +17,11 @@ import (
 type commandExecutor struct {
 	cmd  *exec.Cmd
 	lock sync.Mutex
+	// killed is set when Kill is called before the process was started.
+	killed bool
 }
+
+var errKilledBeforeStart = errors.New("killed before the command was started")
 
 func newCommand(ctx context.Context, step dag.Step) (Executor, error) {
 	// nolint: gosec
@@ -49,6 +54,12 @@ func newCommand(ctx context.Context, step dag.Step) (Executor, error) {
 
 func (e *commandExecutor) Run() error {
 	e.lock.Lock()
+	if e.killed {
+		// the stop signal arrived between the creation of the executor and
+		// the start of the process: do not start it.
+		e.lock.Unlock()
+		return errKilledBeforeStart
+	}
 	err := e.cmd.Start()
 	e.lock.Unlock()
 	if err != nil {
@@ -68,7 +79,11 @@ func (e *commandExecutor) SetStderr(out io.Writer) {
 func (e *commandExecutor) Kill(sig os.Signal) error {
 	e.lock.Lock()
 	defer e.lock.Unlock()
-	if e.cmd == nil || e.cmd.Process == nil {
+	if e.cmd == nil {
+		return nil
+	}
+	if e.cmd.Process == nil {
+		e.killed = true
 		return nil
 	}
 	return syscall.Kill(-e.cmd.Process.Pid, sig.(syscall.Signal))
